@@ -316,7 +316,11 @@ class StructMachine(Machine):
             en = self.eval(idx["end"], fr, guard)
             if idx.get("closed"):
                 en = en + 1
+            self.oblige(fr, guard, z3.And(0 <= z3.IntVal(st) if isinstance(st, int) else 0 <= st, st <= en, en <= z3.Length(s)),
+                        "slice [a..b] out of range (line %s)" % idx.get("line", "?"))
             return mk(z3.SubString(s, st, en - st))
+        self.oblige(fr, guard, z3.And(0 <= z3.IntVal(st) if isinstance(st, int) else 0 <= st, st <= z3.Length(s)),
+                    "slice [a..] out of range (line %s)" % idx.get("line", "?"))
         return mk(z3.SubString(s, st, z3.Length(s) - st))
 
     def ev_index(self, e, fr, guard):
@@ -737,6 +741,12 @@ class StructMachine(Machine):
                 return FPV(z3.fpAbs(recv.f))
             if meth in ("clone", "to_owned"):
                 return recv
+            if meth in ("max", "min") and len(args) == 1:
+                other = to_fp(args[0])
+                return FPV(z3.fpMax(recv.f, other) if meth == "max" else z3.fpMin(recv.f, other))
+        if isinstance(recv, float) and meth in ("max", "min") and len(args) == 1 and isinstance(args[0], FPV):
+            mine = z3.FPVal(recv, z3.Float64())
+            return FPV(z3.fpMax(mine, args[0].f) if meth == "max" else z3.fpMin(mine, args[0].f))
         if isinstance(recv, VecV):
             if meth in ("sort", "sort_unstable") and not args and recv.canonical is not None:
                 # sorting the members of a HashSet: the result depends on the members only, not on the iteration order.
@@ -937,6 +947,26 @@ class StructMachine(Machine):
                     if sv.fmt == fmt:
                         return Res(True, sv.v, Opaque("chrono::ParseError"))
                     raise Unsupported("parse_from_str(%r) of a date formatted with %r" % (fmt, sv.fmt))
+                if fmt in ("%y%m%d", "%Y%m%d"):
+                    # chrono's documented behaviour on a string of exactly 6 (8) digits: %y is the year modulo 100 with the
+                    # POSIX pivot (00-68 -> 20xx, 69-99 -> 19xx), %m / %d two digits; the date must exist. What chrono does
+                    # with any other text (fewer digits, blanks, signs) is left open: acceptance and value are unconstrained.
+                    sz = to_strz(sv)
+                    dg = z3.Range("0", "9")
+                    L = 6 if fmt == "%y%m%d" else 8
+                    shape = z3.InRe(sz, z3.Concat(*[dg] * L))
+                    num = lambda off, n: sum((z3.StrToCode(z3.SubString(sz, off + k, 1)) - 48) * (10 ** (n - 1 - k)) for k in range(n))
+                    if L == 6:
+                        yy = num(0, 2)
+                        y = z3.If(yy <= 68, 2000 + yy, 1900 + yy)
+                        m_, d_ = num(2, 2), num(4, 2)
+                    else:
+                        y, m_, d_ = num(0, 4), num(4, 2), num(6, 2)
+                    free_ok = z3.Bool(self.fresh_name("chrono_accepts_other_text"))
+                    fy, fm, fd = (z3.Int(self.fresh_name("chrono_other_" + k)) for k in "ymd")
+                    self.constraints.append(z3.Implies(z3.Not(shape), valid_date(fy, fm, fd)))
+                    ok = z3.If(shape, valid_date(y, m_, d_), free_ok)
+                    return Res(ok, DateV(z3.If(shape, y, fy), z3.If(shape, m_, fm), z3.If(shape, d_, fd)), Opaque("chrono::ParseError"))
                 if fmt != "%Y-%m-%d":
                     raise Unsupported("NaiveDate::parse_from_str with format %r" % (fmt,))
                 sz = to_strz(sv)
